@@ -681,4 +681,54 @@ theorem envelope_is_streamline (sigma tanx tany c y z : ℝ) (hz : 0 < z) (hs : 
 
 end RealInst
 
+/-! ## non-vacuity: the hypotheses are satisfiable and the objects non-trivial -/
+
+section Examples
+
+example : Decay Real.exp 3 2 := decay_real 3 2 (by norm_num) (by norm_num)
+example : Env Real.sqrt Real.exp Real.pi := env_real
+example : SqrtSpec Real.sqrt := sqrtSpec_real
+
+-- cumulative trapezoid of a non-negative integrand on an uneven grid
+example : cumtrapz [((0 : ℚ), (2 : ℚ)), (1, 4), (3, 0)] = [0, 3, 7] := by
+  norm_num [cumtrapz, cumtrapzFrom]
+
+-- sample count: L/step integer, L < step, generic
+example : sampleCount (fun x : ℚ => ⌈x⌉₊) 2 (1 / 4) = 9 := by
+  have : ⌈(2 : ℚ) / (1 / 4)⌉₊ = 8 := by rw [show (2 : ℚ) / (1 / 4) = ((8 : ℕ) : ℚ) by norm_num, Nat.ceil_natCast]
+  simp only [sampleCount, this]; rfl
+example : sampleCount (fun x : ℚ => ⌈x⌉₊) 1 3 = 4 := by
+  have : ⌈(1 : ℚ) / 3⌉₊ = 1 := by rw [Nat.ceil_eq_iff (by norm_num)]; norm_num
+  simp only [sampleCount, this]; rfl
+example : nodes (2 : ℚ) 5 = [0, 1 / 2, 1, 3 / 2, 2] := by
+  norm_num [nodes, node, List.range, List.range.loop]
+
+-- two species, distinct charges: S = Σ Z n S_i(…, Σ Z² n / Z_i, …) with S_i returning its density argument
+example : beamStopping (fun x : ℚ => x) 1 (0, 0, 0)
+    [⟨1, 2, 0, (0, 0, 0), fun _ n _ => n⟩, ⟨2, 3, 0, (0, 0, 0), fun _ n _ => n⟩] = 70 := by
+  norm_num [beamStopping, densitySum, stoppingTerm, rateArgs, List.foldl]
+
+-- interpolator: inside a bin, on the last knot, in the extrapolation margin, outside
+example : interpEval (1 / 10 : ℚ) [(0, 4), (1, 2), (2, 1)] (3 / 2) = some (3 / 2) := by
+  norm_num [interpEval, interpFrom, lastX, linear1d]
+example : interpEval (1 / 10 : ℚ) [(0, 4), (1, 2), (2, 1)] 2 = some 1 := by
+  norm_num [interpEval, interpFrom, lastX, linear1d]
+example : interpEval (1 / 10 : ℚ) [(0, 4), (1, 2), (2, 1)] (41 / 20) = some 1 := by
+  norm_num [interpEval, interpFrom, lastX, linear1d]
+example : interpEval (1 / 10 : ℚ) [(0, 4), (1, 2), (2, 1)] 3 = none := by
+  norm_num [interpEval, interpFrom, lastX, linear1d]
+
+-- un-normalised direction off axis: slope x z tan² / (σ² + z² tan²)
+example : directionRaw (1 : ℚ) 1 0 2 3 1 = (1, 0, 1) := by
+  norm_num [directionRaw]
+
+-- clamp on: outside the radius the density is zero although the line density is 5
+example : beamDensity (fun x : ℚ => x) (fun _ => 1) 3 1 0 0 10 true 4 (fun _ => some 5) 3 0 1 = some 0 := by
+  norm_num [beamDensity, attDensity, sigmaZ, normRadiusSqr]
+-- … and inside it is line density × Gaussian sample
+example : beamDensity (fun x : ℚ => x) (fun _ => 1) 3 1 0 0 10 true 4 (fun _ => some 5) 1 0 1 = some (5 / 6) := by
+  norm_num [beamDensity, attDensity, sigmaZ, normRadiusSqr, gaussianSample]
+
+end Examples
+
 end Cherab.Props.C04
